@@ -65,12 +65,14 @@ impl StrSuffix {
     }
 
     fn bytes_prefix(&self) -> &[u8] {
-        for i in 0..(self.len().min(3)) {
+        let max = self.len().min(3);
+        for i in 0..max {
             if Self::is_char_boundary_byte(self.0[i]) {
                 return &self.0[..i];
             }
         }
-        &self.0[..0]
+        // All of the (at most 3) bytes continue a character
+        &self.0[..max]
     }
 
     pub fn restore_char(&self, prefix: &[u8]) -> char {
@@ -79,11 +81,12 @@ impl StrSuffix {
         buf[..prefix.len()].copy_from_slice(prefix);
         let suffix = self.bytes_prefix();
         buf[prefix.len()..(prefix.len() + suffix.len())].copy_from_slice(suffix);
-        str::from_utf8(&buf)
-            .expect("UTF-8 string")
-            .chars()
-            .next()
-            .expect("char")
+        // `self` does not always continue the character that `prefix` starts (the tokenizer may
+        // have moved past a part of it already) so the bytes need not form a character
+        str::from_utf8(&buf[..prefix.len() + suffix.len()])
+            .ok()
+            .and_then(|s| s.chars().next())
+            .unwrap_or(char::REPLACEMENT_CHARACTER)
     }
 
     fn suffix(&self, index: usize) -> &Self {
